@@ -55,6 +55,7 @@ type collector struct {
 	counts   sync.Map // string -> *atomic.Int64
 	samples  []string
 	phaseSet map[string]bool
+	watchdog time.Duration
 }
 
 func (c *collector) add(key string, n int64) {
@@ -112,6 +113,8 @@ type phase struct {
 	nGo    int
 	sub    int64
 	failed atomic.Bool
+	// set when an epoch already waited in vain for the workers
+	mainTimedOut bool
 }
 
 func (c *collector) newPhase(name string, roundSeed int64, scale int) *phase {
@@ -188,8 +191,8 @@ func waitTimeout(wg *sync.WaitGroup, d time.Duration) bool {
 
 // join waits for the workers, stops the background goroutines, waits for them: the watchdog.
 func (p *phase) join() bool {
-	limit := 90 * time.Second
-	ok := waitTimeout(&p.main, limit)
+	limit := p.c.watchdog
+	ok := !p.mainTimedOut && waitTimeout(&p.main, limit)
 	p.stop.Store(true)
 	if ok {
 		ok = waitTimeout(&p.bg, limit)
@@ -270,9 +273,11 @@ func (comp) Extra(prop string, tier string, seed int64, scratch string) *core.Ex
 	c := &collector{res: res, seed: seed, tier: tier, perKind: map[string]int{}, phaseSet: map[string]bool{}}
 	_ = logger.SetLogLevel("*:NONE")
 	start := time.Now()
-	rounds, scale, budget := 8, 1, 36*time.Second
+	rounds, scale, budget := 12, 1, 36*time.Second
+	c.watchdog = 25 * time.Second
 	if tier == "thorough" {
 		rounds, scale, budget = 60, 3, 9*time.Minute
+		c.watchdog = 120 * time.Second
 	}
 	if raceEnabled {
 		c.add("race_detector_on", 1)
@@ -282,6 +287,9 @@ func (comp) Extra(prop string, tier string, seed int64, scratch string) *core.Ex
 	defer uninstallHook()
 	procsTable := []int{runtime.NumCPU(), 2, 4, 1, 3, 8}
 	done := 0
+	// no circular wait among the repository's mutexes: graph re-extracted from the source, decided by Coq
+	phaseLockOrder(c, scratch)
+	obsEvictReadd(c)
 	for r := 0; r < rounds; r++ {
 		if time.Since(start) > budget || c.aborted.Load() {
 			break
@@ -321,7 +329,9 @@ func (comp) Extra(prop string, tier string, seed int64, scratch string) *core.Ex
 		"(GOMAXPROCS varied per round, seeded delays at the 4 txcache pause points, yields inside host/session/iteration callbacks), watchdog on completion, recovered panics; " +
 		"monitors: C01+C02 on every concurrent SelectTransactions result; add-only phases: every added transaction present, every sender list = the sorted set; " +
 		"immunized items (ImmunizeKeys then HasOrAdd/AddTx returned has|added) answer Get with their payload at every later probe; Count<=MaxNumItems, per-sender count<=limit, LRU/FIFO Len<=capacity at every probe; " +
-		"after all goroutines finished (phases without Clear): CountTx = |Keys|, NumBytes = sum of Size over Keys. Data races are reported by the race detector (exit status 66), not by this JSON."
+		"at every instant where no writer is in flight (after each epoch and after all goroutines finished; phases without Clear): CountTx = |Keys|, NumBytes = sum of Size over Keys; " +
+		"phases with only AddTx/RemoveTxByHash (no eviction, limits not hit): the two indexes hold the same set at those instants; " +
+		"lock-order: the held->acquired graph of the repository's mutex fields is re-extracted from the source (go/parser) and its acyclicity is decided by Coq (acyclicb_sound). Data races are reported by the race detector (exit status 66), not by this JSON."
 	if !raceEnabled {
 		res.Rule += " THIS RUN WAS NOT BUILT WITH -race: data races were not looked for."
 	}
